@@ -11,7 +11,7 @@ use domain::base::name::{Name as OldName, ParsedName};
 use domain::base::record::ParsedRecord;
 use domain::base::{Message as OldMessage, Question as OldQuestion, Ttl};
 use domain::dep::octseq::Parser;
-use domain::new::base::build::{AsBytes, MessageBuilder, NameCompressor};
+use domain::new::base::build::{AsBytes, BuildInMessage, MessageBuilder, NameCompressor};
 use domain::new::base::name::{Name, NameBuf, RevNameBuf};
 use domain::new::base::parse::{MessageParser, ParseMessageBytes, SplitMessageBytes};
 use domain::new::base::wire::{ParseBytes, U16};
@@ -721,6 +721,46 @@ fn run_script(cx: &mut Ctx, ops: &[Op], kind: &str, bufsize: usize, with_old: bo
     }
 }
 
+/// T2 for the compressor model: Name::build_in_message for a list of names,
+/// starting at contents offset `base` of a zeroed buffer; observation = the
+/// octets written.  Oracle: every name reads back (both readers) as pushed.
+fn bim_case(cx: &mut Ctx, base: usize, names: &[Vec<Vec<u8>>], kind: &str) {
+    cx.idx += 1;
+    if !cx.out.wants(cx.idx) { return; }
+    let wires: Vec<Vec<u8>> = names.iter().map(|n| wire(n)).collect();
+    let case = format!("bim {} {}", base, wires.iter().map(|w| hex(w)).collect::<Vec<_>>().join(","));
+    cx.out.begin(&case);
+    let ws = wires.clone();
+    let r = catch(move || {
+        let mut buf = vec![0u8; 12 + base + 300 * ws.len() + 16];
+        let mut comp = NameCompressor::default();
+        let mut off = base; let mut starts = vec![];
+        for w in &ws {
+            let n: &Name = <&Name>::parse_bytes(w).unwrap();
+            starts.push(off);
+            off = n.build_in_message(&mut buf[12..], off, &mut comp).unwrap();
+        }
+        buf.truncate(12 + off);
+        (buf, starts)
+    });
+    match r {
+        Err(p) => {
+            cx.out.case(&case, "Panic", true, kind);
+            let cls = if p.contains("overflow") { "new_compressor_pointer_overflow" } else if p.contains("valid last label") { "new_compressor_label_boundary_panic" } else { "panic_new_builder" };
+            cx.verdict(false, cls, &case, &p);
+        }
+        Ok((buf, starts)) => {
+            cx.out.case(&case, &format!("Ok {}", hex(&buf[12 + base..])), true, kind);
+            for (w, st) in wires.iter().zip(starts.iter()) {
+                let n = new_split(&buf, 12 + st); let o = old_name(&buf, 12 + st);
+                let okn = matches!(&n, Obs::Ok(x, _) if lower(x) == lower(w));
+                let oko = matches!(&o, Obs::Ok(x, _) if lower(x) == lower(w));
+                cx.verdict(okn && oko, "new_compressor_bad_pointer", &case, &format!("name {} at contents offset {} reads back as new={} old={}", hex(w), st, n.show(), o.show()));
+            }
+        }
+    }
+}
+
 // ------------------------------------------------------------ main
 
 fn main() {
@@ -792,6 +832,26 @@ fn main() {
     // a push that does not fit, followed by pushes that do (new builder only)
     run_script(&mut cx, &[Op::Q(l(&["abc", "de"]), 1), Op::Q(l(&["de"]), 1)], "script:truncated", 22, false);
     run_script(&mut cx, &[Op::R(1, l(&["a", "de"]), 1, Rd::Raw(vec![1; 40])), Op::R(1, l(&["b", "de"]), 1, Rd::A([1, 2, 3, 4])), Op::R(1, l(&["c", "b", "de"]), 1, Rd::A([1, 2, 3, 4]))], "script:truncated", 12 + 45, false);
+    // compressor alone (T2 against the model)
+    bim_case(&mut cx, 0, &[l(&["b", "c"]), l(&["a", "c"]), l(&["x", "a", "b", "c"])], "bim:regress");
+    bim_case(&mut cx, 0, &[l(&["a", "ab"]), l(&["\x01a", "ab"])], "bim:regress");
+    bim_case(&mut cx, 0, &[l(&["example", "org"]), l(&["unequal", "ORG"]), l(&["www", "Example", "org"]), vec![], l(&["org"])], "bim:regress");
+    for base in [16350usize, 16358, 16359, 16360, 16370, 16371, 16372, 16383, 16384] {
+        bim_case(&mut cx, base, &[l(&["a", "example"]), l(&["b", "example"]), l(&["c", "a", "example"])], "bim:boundary");
+    }
+    for _ in 0..400 * scale {
+        let mut pool = vec![];
+        let k = rng.range(1, 7);
+        let names: Vec<Vec<Vec<u8>>> = (0..k).map(|_| script_name(&mut rng, &mut pool)).collect();
+        let base = match rng.below(8) { 0 => rng.range(16330, 16400) as usize, 1 => rng.range(1, 40) as usize, _ => 0 };
+        bim_case(&mut cx, base, &names, if base > 1000 { "bim:16k" } else { "bim:small" });
+    }
+    // many names: eviction of compressor entries (32 slots)
+    for _ in 0..12 * scale {
+        let mut pool = vec![];
+        let names: Vec<Vec<Vec<u8>>> = (0..rng.range(30, 60)).map(|_| { let mut n = script_name(&mut rng, &mut pool); if rng.chance(1, 2) { n.insert(0, vec![b'k', b'0' + rng.below(10) as u8, b'a' + rng.below(26) as u8]); } if wire(&n).len() > 255 { vec![] } else { n } }).collect();
+        bim_case(&mut cx, 0, &names, "bim:many");
+    }
     for _ in 0..500 * scale {
         let ops = gen_script(&mut rng, None);
         run_script(&mut cx, &ops, "script:small", 4000, true);
